@@ -291,4 +291,6 @@ def generate(tier, seed):
                         obs.append(make_ob(tname, opc, op, cat, 0, False, tier))
                 if cat != "hascompare" and (k >= 1 or vt < (3, 6)):
                     obs.append(make_ob(tname, opc, op, cat, k, True, tier))
+    from props.corpus import corpus_ob
+    obs.append(corpus_ob("C03", "argval", FUNCS))
     return obs
